@@ -13,6 +13,9 @@ sys.path.insert(0, str(HERE))
 from sa import harness  # noqa: E402
 
 
+WATCHDOG_S = int(os.environ.get("SA_WATCHDOG_S") or 900)
+
+
 def all_props() -> list[str]:
     return sorted(p.stem for p in (HERE / "props").glob("C*.py"))
 
@@ -44,7 +47,18 @@ def main() -> int:
         ap.error("property id required")
     if a.no_evidence:
         harness.WRITE_EVIDENCE = False
+    # a check that does not answer is as broken as one that answers wrongly: the analysis of one property takes
+    # 10-20 s; after 15 minutes it is declared broken (exit 2), never left hanging and never a pass
+    import signal
+
+    def _too_long(_sig, _frm):
+        print(f"ANALYSIS-ERROR property={a.prop} the analysis did not terminate within {WATCHDOG_S} s", flush=True)
+        os._exit(2)
+
+    signal.signal(signal.SIGALRM, _too_long)
+    signal.alarm(WATCHDOG_S)
     rc = harness.main_check(a.prop, a.tier, a.repo, a.replay)
+    signal.alarm(0)
     if rc == 0 and a.tier == "thorough" and not a.replay:
         from sa import selftest
 
